@@ -22,34 +22,43 @@ class Adapter:
 
 
 def find_adapters(F):
+    """anchors of the three limit adapters, by role (private items may be renamed, split, merged or inlined into the Stream impl)."""
     out = {}
     for name in ADAPTERS:
         a = Adapter(name)
         mod = "vector::%s::" % name
-        for f in F.find(crate=UT):
-            if not f.path.startswith(mod) or not f.built:
-                continue
+        fns = [f for f in F.find(crate=UT) if mod in f.path and f.built and f.kind in ("fn", "assoc")]
+        for f in fns:
             b = f.built
             if f.kind == "fn" and diff_switches(b) and b.arg_count == 4:
                 a.translator = f
-            if f.kind == "assoc" and wakers.cx_param(b) is not None and any(wakers.is_poll_call(t) for _, t in b.calls()):
-                a.poll = f
-        if a.poll is not None:
-            pb = a.poll.built
-            # update fn: local callee taking the payload of the parameter stream's poll
-            for blk, t in pb.calls():
-                c = F.local_callee(a.poll, t)
-                if c is not None and c is not a.translator and c.path.startswith(mod) and len(t["args"]) == 2 and c.kind == "assoc":
-                    e = pb.expr_of_op(t["args"][1])
-                    if contains(e, lambda x: x[0] == "call" and isinstance(x[1], str) and re.search(wakers.POLL_PAT, x[1])):
-                        a.update = c
-                # closure passed to push_into_*_buf
-                if re.search(r"::push_into_\w+_buf", t.get("callee") or ""):
-                    for gd in t.get("garg_defs") or []:
-                        if gd:
-                            cf = F.fns.get(UT + "::" + gd)
-                            if cf is not None:
-                                a.closure = cf
+        # update function: (self, new value: usize) -> Option<..> that replaces the `limit` / `count` field
+        for f in fns:
+            b = f.built
+            if f.kind != "assoc" or b.arg_count != 2 or "usize" not in str(b.locals[2]["ty"]) or not str(b.locals[0]["ty"]).startswith("std::option::Option<"):
+                continue
+            repl = [t for _, t in b.calls(r"^std::mem::replace$|Option::<.*>::replace$") if t["args"] and mentions_field(b.expr_of_op(t["args"][0]), a.param)]
+            wr = [s_ for _, s_ in b.iter_stmts() if s_["k"] == "assign" and last_field(s_["place"]) == a.param]
+            if repl or wr:
+                a.update = f
+        # poll function: has the caller's Context, and (itself, or with its private helpers inlined) hands the polled items to
+        # push_into_*_buf; the one whose own body does so is preferred (the Stream impl merely delegates to it)
+        cands = [f for f in fns if f.kind == "assoc" and wakers.cx_param(f.built) is not None]
+        own = [f for f in cands if f.built.calls(r"::push_into_\w+_buf")]
+        via = [f for f in cands if f not in own and (inl(F, f, a.translator, a.update) or f.built).calls(r"::push_into_\w+_buf")]
+        pick = own or via
+        if pick:
+            # several candidates: the one that also polls (the loop itself), else the first
+            pick.sort(key=lambda f: (-sum(1 for _, t in f.built.calls() if wakers.is_poll_call(t)), f.path))
+            a.poll = pick[0]
+        # per-diff closure (or named function) handed to push_into_*_buf, wherever that call sits
+        for f in ([a.poll] if a.poll else []) + [f for f in fns if f is not a.poll]:
+            for blk, t in f.built.calls(r"::push_into_\w+_buf"):
+                for gd in t.get("garg_defs") or []:
+                    if gd:
+                        cf = F.fns.get(UT + "::" + gd)
+                        if cf is not None and a.closure is None:
+                            a.closure = cf
         out[name] = a
     return out
 
